@@ -205,9 +205,9 @@ SPEC = {
     'deciding': ['trees.polynomial==padded-sum', 'trees.graph-is_consistent', 'trees.graph-length', 'automaton.polynomial==path-sum',
                  'automaton.graph-is_consistent', 'automaton.graph-length', 'graph.as_matrix[dir1]', 'graph.as_matrix[dir0]', 'tree.as_matrix', 'chain.as_matrix'],
     'workloads': [
-        Workload('trees', trees_case, quick=1200, thorough=40000),
-        Workload('automata', automaton_case, quick=1200, thorough=40000),
-        Workload('chain-matrix', chain_matrix_case, quick=200, thorough=3000),
+        Workload('trees', trees_case, quick=1200, thorough=200000),
+        Workload('automata', automaton_case, quick=1200, thorough=200000),
+        Workload('chain-matrix', chain_matrix_case, quick=200, thorough=15000),
     ],
     'shards': {'quick': 2, 'thorough': 16},
     'assumptions': ['own dynamic programme over automaton edges / recursive tree polynomial'],
